@@ -73,4 +73,37 @@ CLAIMS = {
         "note": "Undecided: numeric equality of stored values with the specification (dtype casting, NaN sentinel colliding with "
                 "NaN data, nearest-cell ties). Trusted: xarray nearest selection, np.full broadcasting, np.argwhere.",
     },
+    "C04": {
+        "technique": "static analysis: literal stencil tables checked with exact rational moment conditions, interval reasoning "
+                     "on run length per branch, linearity of the returned terms, term normal form of the run-splitting and the "
+                     "per-line load/store in Field.diff with functional store semantics, constructor-keyword provenance",
+        "level": _GEN + "For C04: interior kernel and one-sided end stencils satisfy sum c_j j^m = m! delta(m,2) up to the degrees "
+                 "the statement names (4-point: 3; 3-point: exactly 2), first derivatives use np.gradient with edge_order 2 / 1 by "
+                 "run length, every stencil index is covered by the length guaranteed on its branch, short runs give zeros, runs "
+                 "are split at invalid cells and scattered back to valid positions, the result is linear in the values, one axis "
+                 "tag is used for slicing, cell length and line enumeration, periodic directions are wrapped by one cell and "
+                 "cropped, and mesh/labels/unit/validity/mapping are kept.",
+        "note": "Undecided: sufficiency of one wrap cell for all validity patterns, commutation with cyclic shifts, rounding. "
+                "Trusted: documented accuracy of np.gradient, alignment of np.convolve(..., 'same'), np.pad wrap.",
+    },
+    "C05": {
+        "technique": "static analysis: decoding of the six curl terms and comparison with the exact Levi-Civita table, term normal "
+                     "form of div/grad/laplace comprehensions (component and axis paired through the mapping), guard dominance "
+                     "(including guards inside the label loop), inverse-mapping and relabelling terms",
+        "level": _GEN + "For C05: div pairs component v with axis vdim_mapping[v]; curl equals sum eps_ijk d_j comp(k) with components "
+                 "taken through _r_dim_mapping and stacked in x,y,z order; laplace sums order-2 derivatives over all dims per "
+                 "component; grad stacks diff(dim) in dims order; _r_dim_mapping is the inverse mapping; relabelling carries the "
+                 "mapping along; unfit fields are refused before any derivative is taken.",
+        "note": "Undecided: polynomial exactness and the vector identities (numeric consequences of C04), commutation with "
+                "quarter turns.",
+    },
+    "C06": {
+        "technique": "static analysis: term normal form of the integral/mean formulas, axis-tag coherence (one _dim2index value for "
+                     "reduction axis, cell length and selection), linearity and translation invariance by polynomial substitution",
+        "level": _GEN + "For C06: integrate() is sum over all spatial axes times prod(cell); directional integrals are sum(axis=a)*cell[a] "
+                 "on mesh.sel(direction); the cumulative form is cell[a]*(array/2 + cumsum shifted by one cell) on the same axis; "
+                 "means reduce the axes of the requested directions looked up in the original mesh; all results are linear, never "
+                 "reduce the component axis and are invariant under translating the mesh.",
+        "note": "Undecided: Fubini equality and integral/extent == mean in floating point. Trusted: numpy reductions; mean == sum/n.",
+    },
 }
